@@ -865,7 +865,9 @@ End CheckExamples.
    N_border (mu depends on the bit lengths of the ends, so it is not monotone in the domain), the
    model treats N_border as "not inside" and its second Nice then moves the end
    (C17_log_nice_model_not_idempotent_refuted; the Go code is idempotent on that input, and the
-   check accepts either outcome there because le_amb = true). *)
+   check accepts either outcome there because le_amb = true).
+   Last conjunct: for idempotence alone it is enough that the rounding-out decision of every
+   unmoved end selects the same exponent for the niced domain, whatever the decision was. *)
 From MM Require Import Proofs.TicksLogNice2.
 Section LogNiceUnmoved.
 Local Open Scope Z_scope.
@@ -892,7 +894,14 @@ Theorem C17_log_nice_idempotent_with_unmoved_end : forall b emin emax o l, 2 <= 
     (exists rest, major = nmn :: rest) /\ (forall d, last major d = nmx) /\
     (mvlo = true -> a = nmn) /\ (mvhi = true -> c = nmx) /\
     (mvlo = false -> a = emin /\ near a nmn (c / a) (log_mu a c) = N_inside) /\
-    (mvhi = false -> c = emax /\ near nmx c (c / a) (log_mu a c) = N_inside))).
+    (mvhi = false -> c = emax /\ near nmx c (c / a) (log_mu a c) = N_inside))) /\
+  (* idempotence alone: it is enough that the rounding-out decision of each unmoved end selects the
+     same exponent for the niced domain (whatever the decision was) *)
+  ((mvlo = false -> isin3 (near emin (qpow b (ceil_log b emin)) (c / a) (log_mu a c)) =
+                    isin3 (near emin (qpow b (ceil_log b emin)) (emax / emin) (log_mu emin emax))) ->
+   (mvhi = false -> isin3 (near (qpow b (floor_log b emax)) emax (c / a) (log_mu a c)) =
+                    isin3 (near (qpow b (floor_log b emax)) emax (emax / emin) (log_mu emin emax))) ->
+   log_nice b emin emax o = (a, c) /\ log_nice b a c o = (a, c)).
 Proof. exact log_nice_idempotent_with_unmoved_end. Qed.
 Print Assumptions C17_log_nice_idempotent_with_unmoved_end.
 
@@ -916,7 +925,16 @@ Example C17_log_nice_unmoved_end_example :
   near (qpow 10 (floor_log 10 emax)) emax (emax / 3) (log_mu 3 emax) = N_inside /\
   le_amb (log_exps 10 1 emax) = false /\
   log_nice 10 3 emax o = (1%Q, emax) /\ log_nice 10 1 emax o = (1%Q, emax) /\
-  (exists mi, log_ticks 10 1 emax o = TR_ticks [1%Q; 10%Q; 100%Q; 1000%Q] mi).
+  (exists mi, log_ticks 10 1 emax o = TR_ticks [1%Q; 10%Q; 100%Q; 1000%Q] mi) /\
+  (* last conjunct: base 16, level forced to 8 (effective base 16^256 = 2^1024 beyond float64): the
+     upper candidate is not representable, the end 20000 stays although its decision is N_outside,
+     and it is N_outside again for the niced domain [1, 20000] *)
+  let o2 := mkOpts 3 8 8 in let e3 := log_exps 16 3 20000 in
+  find_level o2 (log_count e3 true) 0 = FL_ok 8 /\ log_first_last e3 true 8 = (0, 1) /\
+  log_end_ok 16 (2 ^ 8) 1 (qpow 16 256) = false /\
+  near (qpow 16 3) 20000 (20000 / 3) (log_mu 3 20000) = N_outside /\
+  near (qpow 16 3) 20000 (20000 / 1) (log_mu 1 20000) = N_outside /\
+  log_nice 16 3 20000 o2 = (1%Q, 20000%Q) /\ log_nice 16 1 20000 o2 = (1%Q, 20000%Q).
 Proof. vm_compute. repeat split; try reflexivity; eexists; reflexivity. Qed.
 
 (* THE EXACT MODEL IS NOT IDEMPOTENT where the re-taken decision is undecided: base 2, Max 6,
